@@ -9,6 +9,11 @@ the real object.  The oracle (independent of the model) is the property statemen
 after every operation the navigated object is compared with a freshly opened listing
 positioned directly at the reported index.
 
+How many sequences are run on a listing is computed up front by plan_counts from the file size, the
+number of result sets and the alphabet size (integer arithmetic, no clock), so a run is reproducible
+from its seed whatever the machine load; the only wall-clock items are guards that end a hang
+(GUARD_S per action, the worker timeout), which on a healthy reader never fire.
+
 The helpers of this module (file discovery, truncated copies, selections) are also used by C06."""
 import os, sys, json, math, hashlib, random, shutil, tempfile, itertools, re, subprocess, time
 from fractions import Fraction
@@ -411,8 +416,10 @@ def _on_alarm(signum, frame): raise Hang()
 
 def guard(seconds):
     import signal
-    if seconds: signal.signal(signal.SIGALRM, _on_alarm)
-    signal.alarm(int(seconds))
+    try:
+        if seconds: signal.signal(signal.SIGALRM, _on_alarm)
+        signal.alarm(int(seconds))
+    except ValueError: pass          # not in the main thread: no guard
 
 
 def probe_positions(path, skip):
@@ -436,12 +443,23 @@ def run_job(pl):
     """One listing (shipped file or truncated copy): extract the abstract listing, generate the
     sequences, run them on the real reader with the oracle after every step; returns the model
     case line and the implementation's observation strings."""
+    res = {'label': pl['label'], 'inp': pl['inp'], 'failures': [], 'skipped': None}
+    try: return _run_job(pl, res)
+    except Hang:
+        # a guard fired outside a single navigation action (extraction of the abstract listing, fresh references)
+        res['failures'].append({'key': 'nav:hang', 'input': dict(pl['inp'], ops=[['index', 0], ['index', 0], ['last']]),
+                                'observed': 'positioning a listing at each of its indices in turn did not finish within %d s' % (GUARD_S * 8), 'required': 'every navigation action returns'})
+        res['skipped'] = 'hang while extracting the abstract listing'
+        return res
+    finally: guard(0)
+
+
+def _run_job(pl, res):
     import numpy as np
     t_start = time.time()
     path, label = pl['path'], pl['label']
     skip = pl.get('skip_tables')
     rng = random.Random(pl['seed'])
-    res = {'label': label, 'inp': pl['inp'], 'failures': [], 'skipped': None}
     try:
         guard(GUARD_S * 4)
         bad_pos = probe_positions(path, skip)
@@ -462,7 +480,17 @@ def run_job(pl):
         res['skipped'] = 'index=%d raises %s on a freshly opened listing' % (bad_pos[0][0], bad_pos[0][1])
         return res
     guard(GUARD_S * 8)
-    ab = Abstract(path, skip)
+    try: ab = Abstract(path, skip)
+    except Exception as e:
+        # positioning at every index twice in a row (what the extraction does) raised although each index alone did not
+        import traceback
+        n0 = open_listing(path, skip).num_fulltimes
+        inp = dict(pl['inp']); inp['ops'] = [['index', i] for i in range(n0) for _ in (0, 1)]
+        res['failures'].append({'key': 'set_index:raises', 'input': inp, 'observed': 'index=0; index=0; index=1; index=1; ... on one listing raises %s: %s (in %s)' % (
+            type(e).__name__, str(e)[:120], '>'.join(f.name for f in traceback.extract_tb(e.__traceback__)[-3:])), 'required': 'setting an index inside the range does not raise'})
+        res['skipped'] = 'extraction of the abstract listing raised %s' % type(e).__name__
+        guard(0)
+        return res
     res.update({'sim': ab.sim, 'n': ab.n, 'tables': ab.names, 'family': ab.family,
                 'nonuniform': [(i, nm, un, tot) for (i, nm, un, tot) in ab.nonuniform][:20]})
     if pl.get('expect_n') and ab.n != pl['expect_n']:
